@@ -21,6 +21,12 @@ import (
 func DoubleQuotesToBackTick(str string) (string, error) {
 	buffer := bytes.NewBufferString("")
 	for i := 0; i < len(str); i++ {
+		// a quote inside a comment is not a delimiter
+		if end := commentEnd(str, i); end > i {
+			buffer.WriteString(str[i:end])
+			i = end - 1
+			continue
+		}
 		r := rune(str[i])
 		switch r {
 		case '\'':
@@ -96,12 +102,51 @@ func DoubleQuotesToBackTick(str string) (string, error) {
 	return buffer.String(), nil
 }
 
+// commentEnd returns the index just past the comment that starts at
+// str[i], as the MySQL tokenizer delimits comments (`-- ` needs a blank
+// after it, `#` and `//` run to the end of the line, `/* */` does not
+// nest), or i when no comment starts there. Quotes and brackets inside a
+// comment are ordinary text.
+func commentEnd(str string, i int) int {
+	line := func(from int) int {
+		for from < len(str) && str[from] != '\n' {
+			from++
+		}
+		return from
+	}
+	switch {
+	case str[i] == '#':
+		return line(i)
+	case str[i] == '-' && i+1 < len(str) && str[i+1] == '-':
+		if i+2 == len(str) || str[i+2] == ' ' || str[i+2] == '\t' || str[i+2] == '\n' || str[i+2] == '\r' {
+			return line(i)
+		}
+	case str[i] == '/' && i+1 < len(str) && str[i+1] == '/':
+		return line(i)
+	case str[i] == '/' && i+1 < len(str) && str[i+1] == '*':
+		for j := i + 2; j+1 < len(str); j++ {
+			if str[j] == '*' && str[j+1] == '/' {
+				return j + 2
+			}
+		}
+		return len(str)
+	}
+	return i
+}
+
 func FindArrayIndex(str string) ([][]int, error) {
 	var hold *rune
 	output := make([][]int, 0)
 	stack := make([]int, 0)
 	pos := 0
 	for i := 0; i < len(str); i++ {
+		if hold == nil {
+			// brackets and quotes inside a comment are ordinary text
+			if end := commentEnd(str, i); end > i {
+				i = end - 1
+				continue
+			}
+		}
 		r := str[i]
 		switch r {
 		case '\\':
